@@ -107,6 +107,14 @@ def oracle(cases, impl, impl2_map):
                         bad.append(("sub-token does not belong to its source", [c, "key %d -> %s" % (k, d)]))
             if s0 + m > U16:
                 bad.append(("more sub-tokens than representable were handed out without failing", [c, r[:200]]))
+        elif w[0] == "same":
+            # "belongs to that source" is decided by same_source_as: true exactly for two tokens of one (slot, generation)
+            a, b = tuple(int(x) for x in w[1:4]), tuple(int(x) for x in w[4:7])
+            want = "1" if a[0:2] == b[0:2] else "0"
+            if r in ("0", "1", "true", "false"):
+                got = "1" if r in ("1", "true") else "0"
+                if got != want:
+                    bad.append(("same_source_as says %s for tokens of %s" % ("yes" if got == "1" else "no", "one (slot, generation)" if want == "1" else "different (slot, generation) pairs"), [c, r]))
         elif w[0] == "incver":
             # the token of a slot's next generation must still name that slot (else its key is the key of another slot's triple),
             # with sub-id 0 and another version
